@@ -13,7 +13,9 @@ THOROUGH_SCALE = 8
 LEVEL = "exploration"
 RULE = ("spec = dataset of n 1-8 samples whose payloads come from a recursive strategy of picklable values (ints, finite floats, "
         "str, bytes, None, tuples, lists, dicts, ndarrays, tensors) + optional post-cache transform + an operation sequence (<=30) "
-        "of get(i) / get_many(order) / clear / readers(R in {2,3}, per-reader access lists; forked processes sharing the cache); "
+        "of get(i) / get_many(order) / clear / out-of-range / iterate / copy / pread(order: one long-lived forked reader serving requests "
+        "for the rest of the history) / readers(R in {2,3}, per-reader access lists; forked processes sharing the cache); the wrapped "
+        "dataset optionally has a transform attribute of its own; "
         "model = {i: payload}, loads[i], number of clears; invariants after every step: every observation deep-equals "
         "transform(payload_i), transform calls == accesses, in sequential stretches loads[i] rises by at most 1 between clears and "
         "rises again on the first access after a clear, after a readers step loads rise by <= R (0 if cached before) and all readers "
@@ -64,10 +66,17 @@ PAYLOAD = st.recursive(LEAF, lambda ch: st.one_of(
                                                                  unique_by=lambda kv: kv[0])})), max_leaves=6)
 
 
+def _base_transform(sample):
+    return ("B", sample)
+
+
 class Base(torch.utils.data.Dataset):
-    def __init__(self, payload_specs, counter):
+    def __init__(self, payload_specs, counter, own_transform=False):
         self.payload_specs, self.counter = payload_specs, counter
         self.marker = "base-attribute"
+        if own_transform:
+            # like torchvision-style datasets: the wrapped dataset has a `transform` attribute of its own and applies it itself
+            self.transform = _base_transform
 
     def __len__(self):
         return len(self.payload_specs)
@@ -75,7 +84,8 @@ class Base(torch.utils.data.Dataset):
     def __getitem__(self, i):
         with self.counter.get_lock():
             self.counter[i] += 1
-        return build_payload(self.payload_specs[i])
+        v = build_payload(self.payload_specs[i])
+        return self.transform(v) if "transform" in self.__dict__ else v
 
 
 class Tag:
@@ -99,17 +109,40 @@ def _reader(sd, order, conn):
         conn.close()
 
 
+def _persistent_reader(sd, conn):
+    """a long-lived process sharing the cache (like a persistent dataloader worker): forked once, answers read requests for the
+    rest of the history - clears issued by the parent in between must reach it"""
+    import pickle
+    try:
+        while True:
+            order = conn.recv()
+            if order is None:
+                break
+            try:
+                conn.send(("ok", pickle.dumps([(i, sd[i]) for i in order])))
+            except Exception as e:  # pragma: no cover
+                conn.send(("err", repr(e)))
+    except EOFError:
+        pass
+    finally:
+        conn.close()
+
+
 def check(spec):
     from kappadata.caching import SharedDictDataset
     n = len(spec["payloads"])
     ctx = mp.get_context("fork")
     counter = ctx.Array("i", n)
-    base = Base(spec["payloads"], counter)
+    base = Base(spec["payloads"], counter, own_transform=spec.get("base_transform", False))
     tag = Tag() if spec["transform"] else None
+    children_before = {c.pid for c in mp.active_children()}
     sd = SharedDictDataset(base, transform=tag)
+    preader = None
     try:
         def expected(i):
             v = build_payload(spec["payloads"][i])
+            if spec.get("base_transform", False):
+                v = ("B", v)
             return ("T", v) if tag else v
 
         def loads():
@@ -191,6 +224,40 @@ def check(spec):
                     if tag.calls != accesses:
                         raise Violation("transform-not-applied-on-every-access", f"{tag.calls} transform calls for {accesses} accesses")
                 flags.add("iterate")
+            elif k == "pread":
+                import pickle
+                if preader is None:
+                    pc, cc = ctx.Pipe(duplex=True)
+                    proc = ctx.Process(target=_persistent_reader, args=(sd, cc))
+                    proc.start()
+                    cc.close()
+                    preader = (proc, pc)
+                order = [a % n for a in op[1]]
+                preader[1].send(order)
+                if not preader[1].poll(60):
+                    raise Violation("reader-process-failed:persistent", "no answer within 60 s")
+                status, out = preader[1].recv()
+                if status != "ok":
+                    raise Violation("reader-process-failed:persistent", str(out)[:200])
+                for i, got in pickle.loads(out):
+                    if not treg.out_equal(got, expected(i)):
+                        raise Violation("reader-observation-differs:persistent", f"index {i}: {got!r} vs {expected(i)!r}"[:300])
+                after = loads()
+                for i in range(n):
+                    d = after[i] - before[i]
+                    want = 1 if (i in order and i not in cached) else 0
+                    if d != want:
+                        if i in cleared_since and i in order and d == 0:
+                            raise Violation("clear-does-not-reach-a-process-sharing-the-cache", f"index {i} was cleared by the parent, a reader forked "
+                                                                                               f"before the clear still gets it without a load")
+                        raise Violation("persistent-reader-load-count", f"index {i}: +{d} loads, expected +{want}")
+                for i in order:
+                    if i in cleared_since:
+                        reaccess_after_clear = True
+                        cleared_since.discard(i)
+                cached |= set(order)
+                seen_seq += order
+                flags.add("persistent-reader")
             elif k == "clear":
                 sd.dispose()
                 cleared_since |= cached
@@ -251,15 +318,30 @@ def check(spec):
             + (["transform"] if tag else [])
         return Case(nt, labels, max(1, accesses))
     finally:
-        try:
-            sd.shared_dict._manager.shutdown()
-        except Exception:
-            pass
+        if preader is not None:
+            try:
+                preader[1].send(None)
+            except Exception:
+                pass
+            preader[0].join(5)
+            if preader[0].is_alive():
+                preader[0].kill()
+                preader[0].join(5)
+            preader[1].close()
+        # the manager process behind the cache goes away with the last reference to the cached dataset (no private attribute is touched)
+        del sd
+        import gc
+        gc.collect()
+        # whatever the code under test still keeps alive (a server process that outlives its dataset) must not outlive the case
+        for c in mp.active_children():
+            if c.pid not in children_before:
+                c.terminate()
+                c.join(5)
 
 
 @st.composite
 def op(draw, tier):
-    k = draw(st.sampled_from(["get", "get", "get", "many", "clear", "oob", "iterate", "copy"] + (["readers"] if tier == "thorough" else ["readers"] * 0)))
+    k = draw(st.sampled_from(["get", "get", "get", "many", "clear", "oob", "iterate", "copy", "pread"] + (["readers"] if tier == "thorough" else ["readers"] * 0)))
     if k == "get":
         return ["get", draw(st.integers(0, 30))]
     if k == "many":
@@ -268,6 +350,8 @@ def op(draw, tier):
         return ["clear"]
     if k == "oob":
         return ["oob", draw(st.integers(0, 5))]
+    if k == "pread":
+        return ["pread", draw(st.lists(st.integers(0, 30), min_size=1, max_size=4, unique=True))]
     if k == "iterate":
         return ["iterate"]
     if k == "copy":
@@ -280,7 +364,7 @@ def op(draw, tier):
 def spec_s(draw, tier, with_readers):
     payloads = draw(st.lists(PAYLOAD, min_size=1, max_size=8))
     ops = draw(st.lists(op("thorough" if with_readers else "quick"), min_size=2, max_size=30 if not with_readers else 12))
-    return {"payloads": payloads, "transform": draw(st.booleans()), "ops": ops}
+    return {"payloads": payloads, "transform": draw(st.booleans()), "base_transform": draw(st.booleans()), "ops": ops}
 
 
 FACETS = [
